@@ -26,6 +26,7 @@ def run(ctx):
     with Pool(seeds=hash_seeds(ctx), init="engines.gwork:init", recycle=3000) as pool:
         probs = pool.map_on("engines.gwork:schema_problems", [None], [0])[0]
         outs = pool.map("engines.gwork:eval_c02", items)
+        cfgdef = pool.map_on("engines.gwork:eval_cfgdefault", [{}, {}], [ctx.seed, ctx.seed + 1])
     for p in probs:
         res.violation("schema:" + p.split(":")[0], "a parameter kind takes part in the signature differently from what is documented: " + p, {"schema": p})
     edits, kinds, sigs = 0, {}, set()
@@ -45,6 +46,33 @@ def run(ctx):
             else:
                 res.violation(f"changed:{m['edit']}", f"neutral edit {m['edit']} changed the identifier {m['before'][:16]} -> {m['after'][:16]}; "
                               f"before: {json.dumps(it['G'])[:500]} after: {json.dumps(m['H'])[:500]} {m.get('spec') or ''}", {"G": it["G"], "m": m})
+    # add-on family: parameters whose default is a configuration - every way of writing the default value, in every class /
+    # sealing history, must give one identifier per content; other contents must give other identifiers
+    ncfg, by_content, by_id = 0, {}, {}
+    for rows in cfgdef:
+        for r in rows:
+            ncfg += 1
+            if "error" in r:
+                res.violation("edit-raises:cfgdefault", json.dumps(r)[:800], {"cfgdefault": r})
+                continue
+            by_content.setdefault(r["content"], []).append(r)
+            by_id.setdefault(r["id"], {}).setdefault(r["content"].replace(":DboxV2", "").replace(":Dbox", ""), r)
+    for content, rows in by_content.items():
+        ref = next((r for r in rows if r["writing"] in ("unset", "other-i", "other-s") and r["hist"] == "unsealed"), rows[0])
+        for r in rows:
+            if r["id"] != ref["id"] or r.get("raw") != ref.get("raw"):
+                res.violation(f"changed:cfgdefault:{r['writing']}:{r['hist']}",
+                              f"configuration-valued default, content {content}: written as {r['how']} the identifier is {r['id'][:16]}, written as {ref['how']} it is {ref['id'][:16]}",
+                              {"cfgdefault": [ref, r]})
+        rel = {r["relpath"] for r in rows if "relpath" in r and r["id"] == ref["id"]}
+        if len(rel) > 1:
+            res.violation("changed:cfgdefault:job-directory", f"content {content}: job directories {sorted(rel)}", {"cfgdefault": rows[:2]})
+    for ident, contents in by_id.items():
+        if len(contents) > 1:
+            a, b = list(contents)[:2]
+            res.violation("collision:cfgdefault", f"different contents {a} / {b} share the identifier {ident[:16]}", {"cfgdefault": [contents[a], contents[b]]})
+    edits += ncfg
+    kinds["cfgdefault"] = ncfg
     for d in (descs[1], descs[len(descs) // 3]):
         samples.append({"description": d})
     res.coverage = {
@@ -52,7 +80,8 @@ def run(ctx):
         "distinct_nontrivial": len(sigs),
         "rule": "every description of the C01 space x every applicable signature-neutral edit at every node (explicit default, explicit None, "
                 "Meta/Option/Path value changed, ignored config set, meta=True element added to a list/dict, change below a meta=True "
-                "sub-configuration, tag, token / explicit dependency, launcher, run mode, workspace, class replaced by its extended twin); "
+                "sub-configuration, tag, token / explicit dependency, launcher, run mode, workspace, class replaced by its extended twin), plus the family 'default value that is itself a configuration' (8 writings x 2 classes "
+                "x 2 embeddings x 4 sealing histories, two processes); "
                 "evaluations = edits applied and compared; distinct_nontrivial = distinct canonical signatures among the base descriptions",
         "samples": clip_samples(samples),
         "exhaustive": not capped,
@@ -66,6 +95,11 @@ def run(ctx):
 def replay(ctx, payload):
     from . import gwork
     gwork.init()
+    if "cfgdefault" in payload:
+        print(json.dumps(payload["cfgdefault"], indent=1))
+        for r in gwork.eval_cfgdefault({}):
+            print(r)
+        return 0
     G = payload["G"]
     print("base:", json.dumps(G), gwork._ids_of(G)[G["root"]])
     m = payload["m"]
